@@ -27,6 +27,7 @@ EXPLANATION = (
     " (ARROW rhs level) the call after `->` is parsed at call level; (PARENS shape tests) name resolution's tests on the shape of an unresolved expression look through parentheses; (NEWLINE-MODE continuation) the argument list of a prime call continues over any run of line breaks next to a comma."
     ' (BRACKET-MODE) wherever a parsing function moves a cursor known to stand on `(`, `[` or `{`, newline skipping is switched on before the next parsing call: derived for every bracket, not tabulated.'
     ' (ARROW parser arm) every arm over `Call(callee, args)` after `->` answers ArrowCall(value, callee, args), unguarded; (PARENS parser form tests) where the parser demands a form of a sub-expression it has just parsed, the test is made without the parentheses.'
+    ' (TABLE Comment, shared with C17) every `//` up to the line break is a comment token, the empty comment included; (VISIT-dep, shared) a trailing expression and `ret` of it contribute the same dependencies.'
 )
 UNDECIDED = ("that every pair of surface variants parses to the same tree in all combinations (the prime-call argument loop ends at the "
              "first expression that fails to parse, which is layout dependent by design).")
